@@ -262,11 +262,14 @@ def _builder_record(arg):
     btype = type(M)
     ev = [{"ev": "start", "impl": "builder:" + cont}]
     side = []
+    pmat = prior == "ones"          # the prior 1 handed over as a matrix of ones instead of a scalar
+    if pmat:
+        prior = 1
     Weff = Cint + (prior or 0)
     try:
         with warnings.catch_warnings(record=True) as w:
             warnings.simplefilter("always")
-            Cout, T, pi = builders.mle(M, prior_counts=prior, calculate_eq_probs=flag)
+            Cout, T, pi = builders.mle(M, prior_counts=(np.ones(Cint.shape) if pmat else prior), calculate_eq_probs=flag)
     except Exception as ex:
         ev.append({"ev": "raise", "type": type(ex).__name__, "msg": str(ex)[:200]})
         return {"n": len(Ci), "C": Weff.tolist(), "cs": 1, "cap": 0, "events": ev, "comp": [], "side": side,
@@ -318,6 +321,7 @@ def mle_container_part(ctx, side=True):
     step = 40 if ctx.tier == "quick" else 8
     mats = mats[ctx.seed % step::step]
     args = [(C, cont, prior, flag) for C in mats for cont in conts for prior in (None, 1) for flag in (True, False)]
+    args += [(C, cont, "ones", k % 2 == 0) for k, C in enumerate(mats) for cont in conts[(k % 3)::3]]
     recs = core.pmap(_builder_record, args, chunk=40)
     for r in recs:
         C = np.array(r["C"])
